@@ -372,6 +372,18 @@ func countPos(n anode) int {
 
 func init() {
 	register(&Check{ID: "C12", Engine: "B", Run: func(c *Ctx) {
+		// Start from a non-initial state of the package: zero-valued and nil-pointer instances of
+		// every alias type are shown to the converters, to Push and to SetExpression before any
+		// tree is built, so that anything the library remembers per type is exercised.
+		c12FormsCheck(c)
+		for _, z := range []any{StackAlias{}, StackAliasS{}, CondAlias{}, CondAliasS{}, (*StackAlias)(nil), (*StackAliasS)(nil), (*CondAlias)(nil), (*CondAliasS)(nil), (*stackage.Stack)(nil), (*stackage.Condition)(nil), stackage.Stack{}, stackage.Condition{}} {
+			noPanic(func() {
+				stackage.ConvertStack(z)
+				stackage.ConvertCondition(z)
+				stackage.And().Push(z).IsNesting()
+				stackage.Cond("k", stackage.Eq, z).IsNesting()
+			})
+		}
 		trees := c12Trees(c)
 		var cases []c12Case
 		for _, t := range trees {
